@@ -26,7 +26,7 @@ RULE = ("Hypothesis-generated command histories over one project (experiments wi
         "which one experiment fails while another is recorded. Distinct = SHA-1 of case JSON.")
 ASSUMPTIONS = ["process-kill semantics at Python-line granularity; power loss is out of scope",
                "the order in which a directory's entries are listed is chosen by the case (fs order, sorted, reversed, seeded permutations)"]
-ESSENTIAL = ["kill_during_run_after_spawn", "kill_during_restore_after_copy", "kill_during_gc", "kill_during_clean_partway", "kill_inside_shutil", "nonzero_exit_not_recorded",
+ESSENTIAL = ["touched_but_unchanged", "kill_during_run_after_spawn", "kill_during_restore_after_copy", "kill_during_gc", "kill_during_clean_partway", "kill_inside_shutil", "nonzero_exit_not_recorded",
              "dirty_flag_true", "head_moved", "restore_after_wipe", "args_and_options_recorded", "kill_between_exit_and_record"]
 TECHNIQUE = "stateful property testing (Hypothesis-generated command histories) with kill-point fault injection (sys.settrace + os._exit) and an on-disk invariant"
 LEVEL_TEXT = ("Histories are generated; kill points are drawn per command and enumerated for fixed scenarios. The invariant is evaluated on "
@@ -76,11 +76,15 @@ def _case(draw, tier):
             tl = draw(st.sampled_from([0, 6, 20]))
             s["tape"] = draw(st.lists(st.sampled_from([0] * 20 + list(range(1, 16))), min_size=tl, max_size=tl))
         elif op == "git":
-            s["action"] = draw(st.sampled_from(["commit", "dirty", "clean", "checkout_prev"]))
+            s["action"] = draw(st.sampled_from(["commit", "dirty", "clean", "checkout_prev", "touch", "touch"]))
             s["kill"] = None
         elif op == "archive":
             s["latest"] = draw(st.booleans())
         steps.append(s)
+    runs = [j for j, s in enumerate(steps) if s["op"] == "run"]
+    if g["git"] == "git" and runs and draw(st.sampled_from(range(4))) == 0:
+        # a touched-but-unchanged tracked file right before a run
+        steps.insert(draw(st.sampled_from(runs)), {"op": "git", "action": "touch", "kill": None})
     g["steps"] = steps
     return g
 
@@ -206,6 +210,15 @@ class World:
         elif action == "clean":
             gitgen.git(self.root, "checkout", "-q", "--", "tracked.txt")
             self.dirty = False
+        elif action == "touch":
+            # same content, new modification time (an editor save without changes, cp -p, rsync): not a change
+            p = os.path.join(self.root, "tracked.txt")
+            data = open(p, "rb").read()
+            with open(p, "wb") as f:
+                f.write(data)
+            self.ntouch = getattr(self, "ntouch", 0) + 1
+            os.utime(p, (1500000000 + 100 * self.ntouch, 1500000000 + 100 * self.ntouch))
+            self.labels.add("touched_but_unchanged")
         elif action == "checkout_prev" and len(self.hashes) >= 2 and not self.dirty:
             gitgen.git(self.root, "checkout", "-q", self.hashes[-2])
             self.head = self.hashes[-2]
